@@ -61,3 +61,18 @@ pub fn file_event(kind: &'static str, path: &std::path::Path) {
         h(kind, path);
     }
 }
+
+thread_local! {
+    static FORCE_DEGRADED: std::cell::Cell<bool> = const { std::cell::Cell::new(false) };
+}
+
+/// Makes `Database::open` on this thread treat the recovery pool as exhausted, so a
+/// database with a non-empty WAL opens in read-only degraded mode and the streaming
+/// recovery path (`PRAGMA recover_wal`) can be driven with a small log.
+pub fn set_force_degraded(on: bool) {
+    FORCE_DEGRADED.with(|f| f.set(on));
+}
+
+pub fn force_degraded() -> bool {
+    FORCE_DEGRADED.with(|f| f.get())
+}
